@@ -117,7 +117,7 @@ impl Encoder<OutboundIn> for ServerCodec {
                 Ok(())
             }
             OutboundIn::Udp((content, addr)) => {
-                address::encode(&addr.into(), dst);
+                address::encode(&addr.into(), dst)?;
                 dst.put_u16(content.len() as u16);
                 dst.extend_from_slice(&trojan::CR_LF);
                 dst.extend_from_slice(&content);
